@@ -39,7 +39,7 @@ func ProfileFor(prop string) Profile {
 		return p
 	case "C04":
 		// permanence: every handler that rewrites a balance row, with more minting into open batches
-		return tilt("all-message+mint", map[string]int{"mint": 4, "create_batch": 2, "send": 2, "retire": 2, "take": 2})
+		return tilt("all-message+mint", map[string]int{"mint": 4, "create_batch": 2, "send": 2, "retire": 2, "take": 2, "cancel": 2, "bridge": 2, "bridge_receive_bound": 3})
 	case "C03":
 		// ownership: the all-message mix with more marketplace traffic (the fill exception) and more
 		// multi-entry purchases
